@@ -11,6 +11,18 @@ CHECKS = {
         ],
         "jobs": [
             {"pkg": "c01", "run": "TestMem", "checks": {Q: 4000, T: 160000}, "shards": {Q: 4, T: 16}},
+            {"pkg": "c01", "run": "TestNet", "checks": {Q: 2000, T: 48000}, "shards": {Q: 4, T: 16}},
+        ],
+    },
+    "C03": {
+        "level": "exploration",
+        "assumptions": [
+            "bodies are built by the harness's reference encoder (refwire) and are valid by construction",
+            "transports: scripted HTTPClient (responses) and synchronous ServeHTTP (requests) with a reader that returns exactly the chosen pieces",
+        ],
+        "jobs": [
+            {"pkg": "c03", "run": "TestSegmentation", "checks": {Q: 12000, T: 400000}, "shards": {Q: 4, T: 16}},
+            {"pkg": "c03", "run": "TestExhaustive"},
         ],
     },
 }
